@@ -16,7 +16,7 @@ TECHNIQUE = "Hypothesis-generated forecast files (reference encoder) -> load -> 
 RULE = ("one case = well-formed CSEP gridded ASCII file over a generated lattice (anchor, spacing, extent, holes, permuted cell order, 1..6 "
         "contiguous magnitude bins per cell, flags, lon/lat or lat/lon column order with swap_latlon, rates by repr) or a quadtree ASCII / CSV "
         "file over a generated prefix-free quadkey set; lookups at every row's lower corner, box centre, far corner minus 2 slack, and for "
-        "each magnitude bin its lower edge, centre and (last bin) far above; plus a history of 0..4 scale / scale_to_test_date calls. "
+        "each magnitude bin its lower edge, centre and (last bin) far above; plus a history of 0..5 scale / scale_to_test_date calls interleaved with read-only requests (sum, marginals, data, target_event_rates with and without scale=True). "
         "Non-trivial = file with >= 2 columns and >= 2 rows of cells, a hole or flag-0 cell, >= 2 magnitude bins and permuted cell order; "
         "distinct = canonical JSON.")
 ASSUMPTIONS = ["files written by pbt/files.py from the format description in the load_ascii / quadtree loader docstrings",
@@ -46,6 +46,15 @@ def apply_history(ctx, fore, base, hist):
         if h[0] == "scale":
             fore.scale(h[1])
             factor = h[1]
+        elif h[0] == "read":
+            # read-only requests between scalings (they must leave the forecast as it is)
+            from csep.core.catalogs import CSEPCatalog
+            org = fore.region.origins()[0]
+            o = call(lambda: [fore.sum(), fore.spatial_counts(), fore.magnitude_counts(), fore.data,
+                              fore.target_event_rates(CSEPCatalog(data=[("e", 0, float(fore.region.midpoints()[0][1]), float(fore.region.midpoints()[0][0]), 1.0,
+                                                                        float(fore.magnitudes[0]))]), scale=bool(h[1]))])
+            if not o.ok and not isinstance(o.exc, ValueError):   # the first cell may be flagged out: ValueError is the documented answer
+                ctx.unexpected(o, "read_only_requests")
         else:
             t = T0 + D.timedelta(days=h[1])
             fore.scale_to_test_date(t)
@@ -286,8 +295,9 @@ def nontrivial(case):
 
 def histories():
     step = st.one_of(st.tuples(st.just("scale"), st.sampled_from([0.5, 2.0, 1.0, 0.1, 3.0, 1e-3, 7.25])),
-                     st.tuples(st.just("date"), st.sampled_from([-10, 0, 1, 200, 365, 900, 1825, 1826, 3000])))
-    return st.lists(step.map(list), max_size=4)
+                     st.tuples(st.just("date"), st.sampled_from([-10, 0, 1, 200, 365, 900, 1825, 1826, 3000])),
+                     st.tuples(st.just("read"), st.sampled_from([0, 1])))
+    return st.lists(step.map(list), max_size=5)
 
 
 @st.composite
